@@ -141,16 +141,29 @@ func min(a, b int) int {
 	return b
 }
 
-// Exhaustive part: block sizes 1..64 x request counts 0..5*size+3, both pools.
-func TestExhaustiveSmall(t *testing.T) {
-	if harness.Shard() != 0 {
-		t.Skip("enumeration runs on shard 0")
+// maxCount: request counts explored exhaustively for a block size (many block boundaries for the
+// small sizes, so that a growth strategy that changes after the n-th block is still inside the range).
+func maxCount(size int) int {
+	switch {
+	case size <= 8:
+		return 70*size + 3
+	case size <= 16:
+		return 40*size + 3
+	default:
+		return 12*size + 3
 	}
+}
+
+// Exhaustive part: block sizes 1..64 x request counts 0..maxCount(size), both pools.
+func TestExhaustiveSmall(t *testing.T) {
 	for _, kind := range []string{"token", "position"} {
 		for size := 1; size <= 64; size++ {
-			for count := 0; count <= 5*size+3; count++ {
+			if !harness.MyShare(size) {
+				continue // the enumeration is split over the shards by block size
+			}
+			for count := 0; count <= maxCount(size); count++ {
 				record(kind, size, count)
-				if m := runHistory(kind, size, count, size <= 16); m != "" {
+				if m := runHistory(kind, size, count, size <= 16 && count <= 6*size+3); m != "" {
 					harness.Failf(t, "exhaustive-small", []byte(fmt.Sprintf("%s %d %d", kind, size, count)),
 						map[string]string{"kind": kind, "size": fmt.Sprint(size), "count": fmt.Sprint(count)}, "%s", m)
 					return
@@ -158,7 +171,7 @@ func TestExhaustiveSmall(t *testing.T) {
 			}
 		}
 	}
-	harness.Exhaustive("block sizes 1..64 x request counts 0..5*size+3 x {token,position} pool")
+	harness.Exhaustive("block sizes 1..64 x request counts 0..N(size) x {token,position} pool, N = 70*size+3 (size <= 8), 40*size+3 (size <= 16), 12*size+3 (larger)")
 }
 
 // The sizes the library actually uses, many boundaries.
@@ -168,7 +181,7 @@ func TestDefaultBlockSize(t *testing.T) {
 	}
 	for _, kind := range []string{"token", "position"} {
 		for _, size := range []int{token.DefaultBlockSize, position.DefaultBlockSize} {
-			for _, count := range []int{size - 1, size, size + 1, 2 * size, 2*size + 1, 6*size + 5} {
+			for _, count := range []int{size - 1, size, size + 1, 2 * size, 2*size + 1, 6*size + 5, 17*size + 1, 40*size + 5} {
 				record(kind, size, count)
 				if m := runHistory(kind, size, count, false); m != "" {
 					harness.Failf(t, "default-size", []byte(fmt.Sprintf("%s %d %d", kind, size, count)),
@@ -209,7 +222,10 @@ func TestDrawnSizes(t *testing.T) {
 	harness.Check(t, "drawn-sizes", 400, 6000, func(rt *rapid.T) {
 		kind := rapid.SampledFrom([]string{"token", "position"}).Draw(rt, "kind")
 		size := rapid.OneOf(rapid.IntRange(1, 130), rapid.IntRange(1, 8192)).Draw(rt, "size")
-		blocks := rapid.IntRange(0, 6).Draw(rt, "blocks")
+		blocks := rapid.OneOf(rapid.IntRange(0, 6), rapid.IntRange(0, 40)).Draw(rt, "blocks")
+		if blocks*size > 400000 {
+			blocks = 400000 / size
+		}
 		off := rapid.IntRange(-2, 2).Draw(rt, "off")
 		count := blocks*size + rapid.IntRange(0, size).Draw(rt, "rem") + off
 		if count < 0 {
@@ -253,6 +269,20 @@ func TestStateMachine(t *testing.T) {
 				model = append(model, next)
 				next++
 			},
+			"get-untouched": func(rt *rapid.T) {
+				// an object that is requested but not written yet must still be a new one
+				q := p.get()
+				hist += " get0"
+				if q == nil {
+					fail("%s: Get returned nil", hist)
+				}
+				if j, dup := seen[q]; dup {
+					fail("%s: Get returned the object of request #%d again", hist, j)
+				}
+				seen[q] = len(ptrs)
+				ptrs = append(ptrs, q)
+				model = append(model, 0)
+			},
 			"write": func(rt *rapid.T) {
 				if len(ptrs) == 0 {
 					rt.Skip("nothing allocated")
@@ -265,6 +295,9 @@ func TestStateMachine(t *testing.T) {
 			},
 			"": func(rt *rapid.T) {
 				for i, q := range ptrs {
+					if model[i] == 0 {
+						continue // never written: its content is unspecified
+					}
 					s, ok := p.read(q)
 					if !ok || s != model[i] {
 						fail("%s: object #%d reads stamp %d (consistent=%v), model says %d", hist, i, s, ok, model[i])
